@@ -521,6 +521,8 @@ class Interp:
         d0 = self.deref_val(a0) if a0 is not None else None
         # --- `.await` plumbing: a future is driven to completion at its first poll (no interleaving is modelled);
         # a future that is not a crate-local coroutine is an opaque token whose output the oracle names
+        if name == "Ok" and len(args) == 1 and path.startswith("anyhow"):
+            return Ok(args[0])      # anyhow::Ok is a function, not the variant
         if name == "is_disabled" and "tracing::Span" in path + full:
             return Int(1)    # #[instrument]: both arms await the same future; the disabled arm awaits it directly
         if name == "into_future" and len(args) == 1:
